@@ -937,6 +937,13 @@ fn cycles() -> Vec<Value> {
         "rule p(x) { p(%x) }\nrule r { p(a) }\n",
         "rule p(x) { q(%x) }\nrule q(y) { p(%y) }\nrule r { p(1) }\n",
         "rule r {\n  a exists or\n  r\n}\n",
+        // parameterised rules that recurse through when blocks, query blocks and negation, and one that terminates
+        "rule p(x) { when %x exists { %x { a exists or\n when this exists { p(%x) } } } }\nrule r { p(a) }\n",
+        "rule p(x) { when p(%x) { a exists } }\nrule r { p(a) }\n",
+        "rule p(x) { not p(%x) }\nrule r { p(a) }\n",
+        "rule p(x, y) { p(%y, %x) or\n a exists }\nrule r { p(a, 1) }\n",
+        "rule p(x) when a exists { q(count(%x)) }\nrule q(y) { p(%y) }\nrule r when p(a) { a exists }\n",
+        "rule p(x) { when %x exists { %x.v == 1\n p(%x.next) } }\nrule r { p(a) }\n",
         "let v = %v\nrule r { %v exists }\n",
         "let v = %w\nlet w = %v\nrule r { %v exists }\n",
         "rule r {\n  let v = %v\n  %v exists\n}\n",
@@ -952,7 +959,7 @@ fn cycles() -> Vec<Value> {
     ];
     for t in texts {
         let class = if t.contains("rule p(") { "reference-cycle-parameterised-rule" } else if t.contains("let v") { "reference-cycle-variable" } else { "reference-cycle-named-rule" };
-        for d in ["{\"a\":1}", "{}"] {
+        for d in ["{\"a\":1}", "{}", "{\"a\":{\"v\":1,\"next\":{\"v\":1,\"next\":{\"v\":2}}}}"] {
             out.push(lib_case(t, d, class));
             out.push(cli_case(&["validate", "-r", "@r.guard", "-d", "@d.json"], json!({"r.guard": t, "d.json": d}), "", class));
         }
@@ -1089,7 +1096,17 @@ pub fn run(tier: &str) -> i32 {
         let c = &cases[o.idx];
         let class = c["class"].as_str().unwrap_or("?").to_string();
         *by_class.entry(class.clone()).or_insert(0) += 1;
-        rep.outcome(&o.outcome, 1);
+        // outcome classes: a normal result, a diagnostic (error reported), or one of the crash classes
+        let label = if o.outcome == "ok" {
+            let diag = match o.detail["status"].as_i64() {
+                Some(st) => ![0, 19, 7].contains(&st),
+                None => o.detail["status"].as_str().map(|t| t.contains("err")).unwrap_or(false),
+            };
+            if diag { "ok:diagnostic".to_string() } else { "ok:result".to_string() }
+        } else {
+            o.outcome.clone()
+        };
+        rep.outcome(&label, 1);
         let replay = json!({"kind":"c08","case":c,"expected":"a normal result or a diagnostic","observed":o.detail});
         match o.outcome.as_str() {
             "panic" => {
